@@ -595,4 +595,63 @@ example : toQ (sqrt_ui 2 4) = 2 :=
     ⟨1, 1, by norm_num, by norm_num [PREC_TO_BITS]⟩
 example : sqrt 3 ⟨2, -1, 1, [5]⟩ = .sqrtneg := by decide
 
+
+/-! ### mpf_sub and mpf_add in full: all sign combinations, zero operands, aliasing, every geometric case
+
+`Accurate prec r E` (Lemmas/Mpf.lean) = `WF r ∧ (E = 0 → toQ r = 0) ∧ (E ≠ 0 → |toQ r − E| < eps prec · |E|)`.
+
+The proof of `mpf_sub_err` follows sub.c branch by branch: operands ordered by exponent; ediff = 0 with the
+leading-equal-limbs scan (`scan_spec`), one operand exhausted (`cancellation_ok`), the x+1|000… − x|fff… path with
+its implicit leading one (`subClose_spec`: the scan re-aligns on the first limb pair that is not 000/fff, so at most
+one limb of the prec kept is lost), `general_case` when the operands are at least B^(e−2) apart (`subGeneral_ok`);
+ediff = 1 with the 1|000… − 0|fff… test (`subOne_ok`); ediff ≥ 2.
+
+`hau`/`hav`: if the destination is the same variable as a zero-partner operand the value is left in place, so it
+must already fit the destination (it does unless mpf_set_prec_raw lowered the precision below the stored size). -/
+
+/-- mpf_sub: format rules and |r − (u−v)| < 2^(2−p)·|u−v| (r = 0 when u = v), no restriction on the operands. -/
+theorem mpf_sub_err (prec : ℕ) (hp : 2 ≤ prec) (u v : F) (hu : OpWF u) (hv : OpWF v) (rIsU rIsV : Bool)
+    (hau : rIsU = true → u.d.length ≤ prec + 1) (hav : rIsV = true → v.d.length ≤ prec + 1) :
+    WF (sub prec rIsU rIsV u v) ∧ (toQ u - toQ v = 0 → toQ (sub prec rIsU rIsV u v) = 0) ∧
+    (toQ u - toQ v ≠ 0 → |toQ (sub prec rIsU rIsV u v) - (toQ u - toQ v)| < eps prec * |toQ u - toQ v|) :=
+  sub_accurate prec hp u v hu hv rIsU rIsV hau hav
+
+/-- mpf_add: the same for u + v (operands of opposite sign go through the subtraction code). -/
+theorem mpf_add_err (prec : ℕ) (hp : 2 ≤ prec) (u v : F) (hu : OpWF u) (hv : OpWF v) (rIsU rIsV : Bool)
+    (hau : rIsU = true → u.d.length ≤ prec + 1) (hav : rIsV = true → v.d.length ≤ prec + 1) :
+    WF (add prec rIsU rIsV u v) ∧ (toQ u + toQ v = 0 → toQ (add prec rIsU rIsV u v) = 0) ∧
+    (toQ u + toQ v ≠ 0 → |toQ (add prec rIsU rIsV u v) - (toQ u + toQ v)| < eps prec * |toQ u + toQ v|) :=
+  add_accurate prec hp u v hu hv rIsU rIsV hau hav
+
+/-- mpf_sub_ui (w < 2^64). -/
+theorem mpf_sub_ui_err (prec : ℕ) (hp : 2 ≤ prec) (u : F) (w : ℕ) (hu : OpWF u) (hw : w < B) (rIsU : Bool)
+    (hau : rIsU = true → u.d.length ≤ prec + 1) :
+    Accurate prec (sub_ui prec rIsU u w) (toQ u - w) := by
+  unfold sub_ui
+  by_cases h0 : w = 0
+  · rw [if_pos h0, h0]; simpa using accurate_of_set prec (by omega) u hu
+  · rw [if_neg h0]
+    have := sub_accurate prec hp u (ofLimb w) hu (OpWF_ofLimb w h0 hw) rIsU false hau (by simp)
+    rwa [toQ_ofLimb] at this
+
+/-- mpf_ui_sub (w < 2^64) — since ea17729 a wrapper over mpf_sub. -/
+theorem mpf_ui_sub_err (prec : ℕ) (hp : 2 ≤ prec) (w : ℕ) (v : F) (hv : OpWF v) (hw : w < B) (rIsV : Bool)
+    (hav : rIsV = true → v.d.length ≤ prec + 1) :
+    Accurate prec (ui_sub prec rIsV w v) (w - toQ v) := by
+  unfold ui_sub
+  by_cases h0 : w = 0
+  · rw [if_pos h0, h0]
+    have := sub_accurate prec hp (zero 2) v ⟨Limbs_nil, rfl, by simp [zero], fun _ => rfl⟩ hv false rIsV (by simp) hav
+    have e : sub prec false rIsV (zero 2) v = neg prec rIsV v := by unfold sub; simp [zero]
+    rw [e, toQ_zero] at this
+    simpa using this
+  · rw [if_neg h0]
+    have := sub_accurate prec hp (ofLimb w) v (OpWF_ofLimb w h0 hw) hv false rIsV (by simp) hav
+    rwa [toQ_ofLimb] at this
+
+-- non-vacuity: x+1|000 − x|fff across one limb boundary with tails; equal operands; the former ui_sub failure
+example : sub 2 false false ⟨3, 3, 1, [5, 0, 8]⟩ ⟨3, 3, 1, [9, B - 1, 7]⟩ = ⟨2, 1, -1, [B - 4]⟩ := by decide
+example : sub 2 false false ⟨2, 2, 1, [3, 5]⟩ ⟨2, 2, 1, [3, 5]⟩ = ⟨2, 0, 0, []⟩ := by decide
+example : ui_sub 3 false 2 ⟨4, 4, 1, [B - 1, B - 1, B - 1, 1]⟩ = ⟨3, 1, -2, [1]⟩ := by decide
+
 end Mpir.Mpf
